@@ -1,4 +1,12 @@
 """C33 print a tree, parse it, get the same tree."""
+REG = dict(
+    engine='E1-enum',
+    technique='bounded-exhaustive enumeration of syntax trees up to a depth bound, print/parse round trip on the real parser',
+    text='Every tree of the mini-AST grammar up to the stated depth bound (all productions, all 8 item kinds with optional parts on/off, item pairs) is printed canonically and parsed by the real parser; the resulting tree must equal the printed one. Exhaustive within the bound.',
+    note='The canonical printer and the Debug-form emitter are part of the trusted base; both are validated against the parser on all 474 parseable .gdn files of the repository. Trees deeper than the bound are not covered.',
+    design_ref='DESIGN.md §6 C33',
+)
+
 import itertools
 from .. import gast, gen
 from ..core import Machinery
